@@ -499,14 +499,14 @@ func (g *qgen) chance(n int) bool { return g.r.Intn(n) == 0 }
 
 var (
 	c05Labels = []string{"a", "lvl", "c_1", "_x", "foo", "count", "ip", "rate", "sum", "duration", "bytes", "http_status", "B", "vector", "label_replace"}
-	c05Values = []string{"x", "", "a b", `q"r`, "back`tick", "new\nline", "tab\t", `\d+`, "é", "🎉", "a\\b", "0", "{}", "|", "#nocomment", "'", "x.*y"}
+	c05Values = []string{"x", "", "a b", "cr\rlf\r\n", "end\r", `q"r`, "back`tick", "new\nline", "tab\t", `\d+`, "é", "🎉", "a\\b", "0", "{}", "|", "#nocomment", "'", "x.*y"}
 	c05Res    = []string{"x", "a|b", `\d+`, "^a.*z$", "(?i)err", "[a-c]+", `\.`, "", "x{2,3}", `\bfoo\b`, "é+"}
 	c05BadRes = []string{"(", "[a", "x{2", `\`, "(?P<n>", "*a", "a**"}
 	c05Named  = []string{`(?P<m>\w+) (?P<p>\S+)`, `(?P<status>\d{3})`, `(\d+)(?P<x>.)`, `no groups`}
 	c05BadNm  = []string{`(?P<a>x)(?P<a>y)`} // duplicate names are a compile error in Go: rejected either way
 	c05Durs   = []string{"5m", "1h", "30s", "1h30m", "250ms", "1d", "2w", "90s", "1m30s", "0s", "1.5h", "100us", "10ns", "1h5m10s"}
 	c05Bytes  = []string{"5KB", "1MiB", "10B", "2GB", "1.5MB", "42kb", "3KiB", "1TB", "7b"}
-	c05Nums   = []string{"0", "1", "5", "42", "2.5", "0.99", "1e3", "1.5e-3", "10", "007", ".5", "1.", "0x10", "9223372036854775807", "123456789.123456789"}
+	c05Nums   = []string{"0", "1", "5", "42", "2.5", "010", "1e3", "0755", "10", "007", ".5", "1.", "0.99", "1.5e-3", "0x10", "9223372036854775807", "123456789.123456789", "00", "0400.0"}
 	c05RangeU = []string{"avg_over_time", "sum_over_time", "min_over_time", "max_over_time", "stdvar_over_time", "stddev_over_time",
 		"first_over_time", "last_over_time", "rate", "rate_counter", "absent_over_time"}
 	c05RangeN = []string{"count_over_time", "rate", "bytes_over_time", "bytes_rate", "absent_over_time"}
@@ -982,7 +982,8 @@ func quoteStyle(r *rand.Rand, v string, canonical bool) string {
 	}
 	switch r.Intn(3) {
 	case 0:
-		if !strings.ContainsAny(v, "`\r") {
+		// a carriage return inside a backquoted literal is kept as it is (unlike in Go source)
+		if !strings.Contains(v, "`") {
 			return "`" + v + "`"
 		}
 		return strconv.Quote(v)
